@@ -728,6 +728,7 @@ def handle (line : String) : List String :=
   | "W" :: toks => ["M " ++ handleWrite toks]
   | "I" :: toks => ["M " ++ handleIter toks]
   | "X" :: toks => ["M " ++ handlePar toks]
+  | "Z" :: _ => ["M ok"]
   | ["Y", fmt, _, _, _, _, inp] =>
     match unhex inp with
     | some b => ["M ok", "S " ++ (if fmt = "fa" then Fa.specStr b else Fq.specStr b)]
@@ -737,7 +738,7 @@ def handle (line : String) : List String :=
 partial def loop (h : IO.FS.Stream) (out : IO.FS.Stream) : IO Unit := do
   let line ← h.getLine
   if line.isEmpty then return ()
-  if line.startsWith "R " || line.startsWith "A " || line.startsWith "I " || line.startsWith "W " || line.startsWith "X " || line.startsWith "Y " then
+  if line.startsWith "R " || line.startsWith "A " || line.startsWith "I " || line.startsWith "W " || line.startsWith "X " || line.startsWith "Y " || line.startsWith "Z " then
     for l in handle line do
       out.putStrLn l
   loop h out
